@@ -9,10 +9,18 @@
   `Op.code action data` (RUN data | SYNC_FLUSH | FULL_FLUSH | FULL_BARRIER | FINISH, each possibly with new input)
   and `Op.update chain` (lzma_filters_update); "at every flush completion" is expressed by quantifying over ALL
   histories `ops` that end in the flush in question.
+
+  The last two sections remove the abstraction: with C01's models of the LZMA symbol coder as the codec
+  (`FlushC01.lzmaCodec`; `lzma2Codec_sound_literal` is an instance without any hypothesis), "decodable" is stated for the
+  EXECUTABLE decoder models — `Lzma2.lzma2Decode` on exactly the bytes written after LZMA_SYNC_FLUSH
+  (`sync_flush_real_decoder`, lc/lp/pb changes included) and `XzDecode.xzDecode XzEnv.stdEnv` / the grammar `DValidXz` on
+  the .xz rendering with the container encoders (`full_flush_blocks_xz_partial`, `finished_stream_xz_partial`).
 -/
 import XzVerif.Lemmas.FlushStream2
 import XzVerif.Lemmas.FlushC01
 import XzVerif.Lemmas.FlushC01Chunks
+import XzVerif.Lemmas.FlushC01Props
+import XzVerif.Lemmas.FlushXzLink
 import XzVerif.Gen.C12
 
 namespace XzVerif.C12
@@ -520,54 +528,55 @@ theorem lzma2Codec_sound_literal (dictSize : Nat) (hd : dictSize ≤ 4294967295)
     exact raw_finish_decodable (lzmaEnv dictSize literalParser) (fun _ => hS) fs hfs ops data hrun
 
 open XzVerif.FlushC01 in
-/-- **"Decodable" by the decoder model of C01/C03** (`Lzma2.lzma2Decode`, the executable model of lzma2_decoder.c over
-    lz_decoder.c and lzma_decoder.c): with C01's chunk codec and ANY parser for which the codec is sound, what the flush
-    model has written when a SYNC_FLUSH completes is a chunk sequence of C01's chunk specification covering exactly the
-    input so far; closed with the end-marker byte it is decoded by the executable decoder to exactly the input so far,
-    LZMA_STREAM_END, every byte consumed.
-    `_partial`, two things stay open: (a) the statement is about output ++ [0x00], not about the decoder stopped at the end
-    of the truncated output (C01's proof of the executable decoder is for streams with end marker; no slicing theorem for
-    it exists yet) — for the chunk-level decoder `Dec` of this file the truncated form is `sync_flush_decodable`;
-    (b) histories are restricted to updates that leave lc/lp/pb alone (`KeepsProps`): C01's chunk specification is for
-    fixed lc/lp/pb. The .xz container (`Fmt` vs `XzDecode.xzDecode`) is not linked here. -/
-theorem sync_flush_real_decoder_partial (dictSize : Nat) (hd : dictSize ≤ 4294967295) (P : Parser)
+/-- **"Decodable" by the decoder model of C01/C03, truncated form** (`Lzma2.lzma2Decode`, the executable model of
+    lzma2_decoder.c over lz_decoder.c and lzma_decoder.c). With C01's chunk codec and ANY parser for which the codec is
+    sound, after ANY history of RUN / SYNC_FLUSH / `lzma_filters_update` calls (including updates that change lc/lp/pb at
+    a chunk boundary), when a SYNC_FLUSH completes the decoder run on EXACTLY the output so far
+      * produces exactly the input so far,
+      * consumes every byte, and
+      * stops with LZMA_OK, waiting for the next chunk at SEQ_CONTROL (never an error);
+    and on the output closed with the end-marker byte it ends with LZMA_STREAM_END, same data.
+    Proof: the bytes written are a chunk sequence of C01's chunk specification extended by lc/lp/pb changes (`ChunksP`,
+    Lemmas/FlushChunksP.lean; invariant `RawChunkInvP`), and the executable decoder is proved correct on such sequences
+    with and without end marker (Lemmas/FlushTrunc.lean, FlushTruncP.lean). -/
+theorem sync_flush_real_decoder (dictSize : Nat) (hd : dictSize ≤ 4294967295) (P : Parser)
     (hS : (lzmaCodec dictSize P).Sound) (fs : Chain) (hfs : SyncChain fs) (ops : List Op) (data : Bytes)
-    (hk : ∀ op ∈ ops, KeepsProps (lastProps fs) op)
     (hrun : (Enc.execAll (lzmaEnv dictSize P) (Enc.rawInit (lzmaEnv dictSize P) fs) ops).1.finished = false)
     (cap : Nat) :
     let r := Enc.execAll (lzmaEnv dictSize P) (Enc.rawInit (lzmaEnv dictSize P) fs) (ops ++ [.code .syncFlush data])
     r.2.input.length < cap →
+    Lzma2.lzma2Decode dictSize (bodies r.2.segs) [] cap
+      = { ret := .ok, out := r.2.input, consumed := (bodies r.2.segs).length } ∧
     Lzma2.lzma2Decode dictSize (bodies r.2.segs ++ [0]) [] cap
       = { ret := .streamEnd, out := r.2.input, consumed := (bodies r.2.segs).length + 1 } := by
   intro r hcap
   have hE : ∀ i, ((lzmaEnv dictSize P).codec i).Sound := fun _ => hS
   obtain ⟨f, hl, hkind, hv⟩ := hfs.last
   have hp0 : (lastProps fs).valid = true := by simp [lastProps, hl, hv]
-  have hinv0 := RawChunkInv.execAll dictSize hd P hS (lastProps fs) ops _ _ hk (RawChunkInv.init dictSize P hfs)
+  have hinv0 := RawChunkInvP.execAll dictSize hd P hS (lastProps fs) ops _ _ (RawChunkInvP.init dictSize P hfs)
   have hr : r = Enc.exec (lzmaEnv dictSize P) (Enc.execAll (lzmaEnv dictSize P) (Enc.rawInit (lzmaEnv dictSize P) fs) ops)
       (.code .syncFlush data) := execAll_append _ _ _ _
-  change RawChunkInv dictSize P (lastProps fs) (Enc.execAll (lzmaEnv dictSize P) (Enc.rawInit (lzmaEnv dictSize P) fs) ops).1
+  change RawChunkInvP dictSize P (lastProps fs) (Enc.execAll (lzmaEnv dictSize P) (Enc.rawInit (lzmaEnv dictSize P) fs) ops).1
     (Enc.execAll (lzmaEnv dictSize P) (Enc.rawInit (lzmaEnv dictSize P) fs) ops).2 at hinv0
   obtain ⟨f1, f2, f3, r', f4, f5⟩ := RawInv.flush hE hinv0.raw hrun data
-  have hinv := RawChunkInv.step dictSize hd P hS (lastProps fs) hinv0 (.code .syncFlush data) trivial
+  have hinv := RawChunkInvP.step dictSize hd P hS (lastProps fs) hinv0 (.code .syncFlush data)
   rw [← hr] at f1 f2 f3 f4 hinv
-  obtain ⟨r'', hc, hci⟩ := hinv.running f3
+  obtain ⟨r'', sw, hc, hci⟩ := hinv.running f3
   rw [f4] at hc; cases hc
   obtain ⟨⟨r3, hc3, hok⟩, _, _⟩ := hinv.raw
   rw [f4] at hc3; cases hc3
   obtain ⟨d, _, _, hh⟩ := hok.running f3 []
   rw [f5, List.append_nil] at hh
-  have := chunkInv_decodes dictSize hd (lastProps fs) hp0 hci f5 cap (by rw [hh]; exact hcap)
-  rw [hh] at this
-  exact this
+  have h1 := chunkInvP_decodes_trunc dictSize hd (lastProps fs) hp0 hci f5 cap (by rw [hh]; exact hcap)
+  have h2 := chunkInvP_decodes dictSize hd (lastProps fs) hp0 hci f5 cap (by rw [hh]; exact hcap)
+  rw [hh] at h1 h2
+  exact ⟨h1, h2⟩
 
 open XzVerif.FlushC01 in
-/-- ... and the finished raw LZMA2 stream (after any history of RUN / SYNC_FLUSH / lc-lp-pb-preserving updates) is
-    decoded by the executable decoder model to the whole input, LZMA_STREAM_END, every byte consumed.
-    `_partial` only because of restriction (b) above. -/
-theorem finish_real_decoder_partial (dictSize : Nat) (hd : dictSize ≤ 4294967295) (P : Parser)
+/-- ... and the finished raw LZMA2 stream (after any history of RUN / SYNC_FLUSH / updates, lc/lp/pb changes included) is
+    decoded by the executable decoder model to the whole input, LZMA_STREAM_END, every byte consumed. -/
+theorem finish_real_decoder (dictSize : Nat) (hd : dictSize ≤ 4294967295) (P : Parser)
     (hS : (lzmaCodec dictSize P).Sound) (fs : Chain) (hfs : SyncChain fs) (ops : List Op) (data : Bytes)
-    (hk : ∀ op ∈ ops, KeepsProps (lastProps fs) op)
     (hrun : (Enc.execAll (lzmaEnv dictSize P) (Enc.rawInit (lzmaEnv dictSize P) fs) ops).1.finished = false)
     (cap : Nat) :
     let r := Enc.execAll (lzmaEnv dictSize P) (Enc.rawInit (lzmaEnv dictSize P) fs) (ops ++ [.code .finish data])
@@ -578,35 +587,137 @@ theorem finish_real_decoder_partial (dictSize : Nat) (hd : dictSize ≤ 42949672
   have hE : ∀ i, ((lzmaEnv dictSize P).codec i).Sound := fun _ => hS
   obtain ⟨f, hl, hkind, hv⟩ := hfs.last
   have hp0 : (lastProps fs).valid = true := by simp [lastProps, hl, hv]
-  have hinv0 := RawChunkInv.execAll dictSize hd P hS (lastProps fs) ops _ _ hk (RawChunkInv.init dictSize P hfs)
+  have hinv0 := RawChunkInvP.execAll dictSize hd P hS (lastProps fs) ops _ _ (RawChunkInvP.init dictSize P hfs)
   have hr : r = Enc.exec (lzmaEnv dictSize P) (Enc.execAll (lzmaEnv dictSize P) (Enc.rawInit (lzmaEnv dictSize P) fs) ops)
       (.code .finish data) := execAll_append _ _ _ _
-  change RawChunkInv dictSize P (lastProps fs) (Enc.execAll (lzmaEnv dictSize P) (Enc.rawInit (lzmaEnv dictSize P) fs) ops).1
+  change RawChunkInvP dictSize P (lastProps fs) (Enc.execAll (lzmaEnv dictSize P) (Enc.rawInit (lzmaEnv dictSize P) fs) ops).1
     (Enc.execAll (lzmaEnv dictSize P) (Enc.rawInit (lzmaEnv dictSize P) fs) ops).2 at hinv0
   obtain ⟨_, _, f3⟩ := RawInv.finish hE hinv0.raw hrun data
-  have hinv := RawChunkInv.step dictSize hd P hS (lastProps fs) hinv0 (.code .finish data) trivial
+  have hinv := RawChunkInvP.step dictSize hd P hS (lastProps fs) hinv0 (.code .finish data)
   rw [← hr] at f3 hinv
-  obtain ⟨bytes, l, hb, hci, hun, hh⟩ := hinv.ended f3
-  have := chunkInv_decodes dictSize hd (lastProps fs) hp0 hci hun cap (by rw [hh]; exact hcap)
+  obtain ⟨bytes, l, sw, hb, hci, hun, hh⟩ := hinv.ended f3
+  have := chunkInvP_decodes dictSize hd (lastProps fs) hp0 hci hun cap (by rw [hh]; exact hcap)
   rw [hb, ← hh]
   simpa using this
 
 open XzVerif.FlushC01 in
-/-- both, for the hypothesis-free literal codec -/
-theorem literal_flush_real_decoder_partial (dictSize : Nat) (hd : dictSize ≤ 4294967295) (fs : Chain) (hfs : SyncChain fs)
-    (ops : List Op) (data : Bytes) (hk : ∀ op ∈ ops, KeepsProps (lastProps fs) op)
+/-- both, for the hypothesis-free literal codec: no hypothesis about the compressor is left -/
+theorem literal_flush_real_decoder (dictSize : Nat) (hd : dictSize ≤ 4294967295) (fs : Chain) (hfs : SyncChain fs)
+    (ops : List Op) (data : Bytes)
     (hrun : (Enc.execAll (lzmaEnv dictSize literalParser) (Enc.rawInit (lzmaEnv dictSize literalParser) fs) ops).1.finished = false)
     (cap : Nat) :
     (let r := Enc.execAll (lzmaEnv dictSize literalParser) (Enc.rawInit (lzmaEnv dictSize literalParser) fs) (ops ++ [.code .syncFlush data])
      r.2.input.length < cap →
+     Lzma2.lzma2Decode dictSize (bodies r.2.segs) [] cap
+       = { ret := .ok, out := r.2.input, consumed := (bodies r.2.segs).length } ∧
      Lzma2.lzma2Decode dictSize (bodies r.2.segs ++ [0]) [] cap
        = { ret := .streamEnd, out := r.2.input, consumed := (bodies r.2.segs).length + 1 }) ∧
     (let r := Enc.execAll (lzmaEnv dictSize literalParser) (Enc.rawInit (lzmaEnv dictSize literalParser) fs) (ops ++ [.code .finish data])
      r.2.input.length < cap →
      Lzma2.lzma2Decode dictSize (bodies r.2.segs) [] cap
        = { ret := .streamEnd, out := r.2.input, consumed := (bodies r.2.segs).length }) :=
-  ⟨sync_flush_real_decoder_partial dictSize hd literalParser (lzma2Codec_sound_literal dictSize hd).1 fs hfs ops data hk hrun cap,
-   finish_real_decoder_partial dictSize hd literalParser (lzma2Codec_sound_literal dictSize hd).1 fs hfs ops data hk hrun cap⟩
+  ⟨sync_flush_real_decoder dictSize hd literalParser (lzma2Codec_sound_literal dictSize hd).1 fs hfs ops data hrun cap,
+   finish_real_decoder dictSize hd literalParser (lzma2Codec_sound_literal dictSize hd).1 fs hfs ops data hrun cap⟩
+
+/-! ## Link to the .xz container decoder (C02): `Fmt` := the container encoders, decoder := `XzDecode.xzDecode XzEnv.stdEnv` -/
+
+open XzVerif.FlushC01 XzVerif.FlushXz XzVerif.Container XzVerif.XzDecode in
+/-- **Every Block closed by LZMA_FULL_FLUSH / LZMA_FULL_BARRIER is a Block of the .xz grammar.**
+    Setting: the single-threaded Stream encoder model with C01's chunk codec (ANY parser for which it is sound) for every
+    Block and liblzma's Check (`StdEnv`), rendered with the container encoders of Model/Container.lean (`stdFmt`:
+    `streamHeaderEncode`, `blockHeaderEncodeWith`, `indexEncode`, `streamFooterEncode`). After ANY history of RUN /
+    SYNC_FLUSH / FULL_FLUSH / FULL_BARRIER / `lzma_filters_update` (lc/lp/pb and dict_size may change, also in the middle
+    of a Block), when a full flush completes without a fatal error the output is Stream Header ++ whole Blocks, their
+    data is all input so far, and EVERY Block written so far
+      * is a truthful Block for the container decoder (`GoodBlock XzEnv.stdEnv`: its header decodes, the payload decoder
+        of `stdEnv` — the executable LZMA2 decoder — returns the Block's data from the Compressed Data field with
+        LZMA_STREAM_END whatever follows, Block Padding and Check are right, and the Index Record the encoder stored is the
+        Block's Unpadded Size), and
+      * is a `DBlock` of the declarative grammar (Lemmas/XzGrammar.lean).
+    `_partial`: chains are restricted to ONE LZMA2 filter (`SingleL2`: in the flush model delta/BCJ filters are the
+    identity on data, so only such chains correspond to real streams); the threaded encoder is not covered. -/
+theorem full_flush_blocks_xz_partial {E : Env St} (dictSize : Nat) (hd : dictSize ≤ 4294967295) (P : Parser)
+    (hS : (lzmaCodec dictSize P).Sound) (hE : StdEnv E dictSize P) (fs : Chain) (check : Nat)
+    (hsup : checkIsSupported check = true) (hfs : SingleL2 dictSize fs)
+    (hacc : (StreamEnc.init (E.codec 0) fs check).2 = .ok)
+    (ops : List Op) (hops : ∀ op ∈ ops, SingleOp dictSize op) (a : Action) (ha : a = .fullFlush ∨ a = .fullBarrier) (data : Bytes)
+    (hrun : (Enc.execAll E (Enc.streamInit E fs check) ops).1.finished = false)
+    (hlive : (Enc.execAll E (Enc.streamInit E fs check) (ops ++ [.code a data])).1.dead = false) :
+    let r := Enc.execAll E (Enc.streamInit E fs check) (ops ++ [.code a data])
+    ∃ s, r.1.core = .stream s ∧
+      render (stdFmt check) r.2.segs = (stdFmt check).streamHeader check ++ doneBytes (stdFmt check) s.done ∧
+      doneData s.done = r.2.input ∧
+      ∀ (i : Nat) (b : DoneBlock), s.done[i]? = some b → ∃ rec, s.records[i]? = some rec ∧
+        GoodBlock XzEnv.stdEnv check b.data ((stdFmt check).blockHeader b.chain none none ++ b.body) rec.1 ∧
+        ∃ (f : Flush.Filter) (hdr comp : List UInt8) (ds : Nat),
+          b.chain = [f] ∧ (stdFmt check).blockHeader b.chain none none = hdr ∧ hdr.length = 12 ∧
+          (∀ t, blockHeaderDecode check (hdr ++ t) = .ok (lzma2Header f.dict)) ∧
+          propsDecode FILTER_LZMA2 [UInt8.ofNat (lzma2DictEncode f.dict)] = .ok (.lzma2 ds) ∧ f.dict ≤ ds ∧ ds ≤ 4294967295 ∧
+          Container.validateChain ((lzma2Header f.dict).filters.map (·.id)) = .ok 1 ∧
+          b.body = comp ++ List.replicate (blockPadLen comp.length) 0 ++ (if check = 0 then [] else XzEnv.check check b.data) ∧
+          rec = (comp.length + 12 + Container.checkSize check, b.data.length) ∧
+          ∀ (cap : Nat) (ign : Bool), b.data.length ≤ cap →
+            DBlock XzEnv.stdEnv check ign (lzma2Header f.dict) cap comp b.data
+              (List.replicate (blockPadLen comp.length) 0) (if check = 0 then [] else XzEnv.check check b.data) := by
+  intro r
+  have hEs : ∀ i, (E.codec i).Sound := fun i => by rw [hE.codec]; exact hS
+  have hops' : ∀ op ∈ ops ++ [Op.code a data], SingleOp dictSize op := by
+    intro op hop
+    rcases List.mem_append.mp hop with h | h
+    · exact hops op h
+    · simp only [List.mem_singleton] at h; subst h; trivial
+  obtain ⟨_, s0, s, _, hc, hrender, hdata, _, _⟩ := full_flush_ends_block E hEs (stdFmt check) fs check hacc ops a ha data hrun hlive
+  obtain ⟨s', hc', _, _, hfacts⟩ := stream_blocks_facts dictSize hd P hS hE (stdFmt check) fs check hfs hacc _ hops' hlive
+  rw [hc] at hc'; cases hc'
+  refine ⟨s, hc, hrender, hdata, ?_⟩
+  intro i b hb
+  obtain ⟨rec, hr, hf⟩ := hfacts i b hb
+  exact ⟨rec, hr, doneBlock_good check hsup b rec hf, doneBlock_dblock check hsup b rec hf⟩
+
+open XzVerif.FlushC01 XzVerif.FlushXz XzVerif.Container XzVerif.XzDecode in
+/-- **The finished Stream is a valid .xz file and decodes to the whole input.** Same setting; after ANY history, when
+    LZMA_FINISH completes without a fatal error, the complete output (rendered with the container encoders) is decoded by
+    the container decoder model `XzDecode.xzDecode XzEnv.stdEnv` (any flags, any sufficient output capacity) to exactly
+    the input of the whole history, LZMA_STREAM_END, every byte consumed, and it satisfies the declarative grammar
+    `DValidXz`. Hypothesis `hidx`: `lzma_index_append` accepted every Record the encoder stored (stream_encoder.c fails
+    with its error otherwise; the flush model has no such error path — `FlushXz.finished_stream_valid_small` replaces it
+    by: at most 2^29 Blocks, sizes summing to at most 2^62).
+    `_partial` for the same restriction as above (one LZMA2 filter per chain, single-threaded encoder). -/
+theorem finished_stream_xz_partial {E : Env St} (dictSize : Nat) (hd : dictSize ≤ 4294967295) (P : Parser)
+    (hS : (lzmaCodec dictSize P).Sound) (hE : StdEnv E dictSize P) (fs : Chain) (check : Nat)
+    (hsup : checkIsSupported check = true) (hfs : SingleL2 dictSize fs)
+    (hacc : (StreamEnc.init (E.codec 0) fs check).2 = .ok)
+    (ops : List Op) (hops : ∀ op ∈ ops, SingleOp dictSize op) (data : Bytes)
+    (hrun : (Enc.execAll E (Enc.streamInit E fs check) ops).1.finished = false)
+    (hlive : (Enc.execAll E (Enc.streamInit E fs check) (ops ++ [.code .finish data])).1.dead = false) :
+    let r := Enc.execAll E (Enc.streamInit E fs check) (ops ++ [.code .finish data])
+    ∃ s, r.1.core = .stream s ∧ doneData s.done = r.2.input ∧
+      ∀ acc, indexAppendAll (s.records.map recOf) {} = .ok acc → ∀ (fl : Flags) (cap : Nat), r.2.input.length ≤ cap →
+        xzDecode XzEnv.stdEnv fl (render (stdFmt check) r.2.segs) cap
+          = { ret := .streamEnd, out := r.2.input, consumed := (render (stdFmt check) r.2.segs).length,
+              events := headerEvents XzEnv.stdEnv fl check } ∧
+        DValidXz XzEnv.stdEnv fl (render (stdFmt check) r.2.segs) cap r.2.input (render (stdFmt check) r.2.segs).length :=
+  finished_stream_xz dictSize hd P hS hE fs check hsup hfs hacc ops hops data hrun hlive
+
+open XzVerif.FlushC01 XzVerif.FlushXz XzVerif.Container XzVerif.XzDecode in
+/-- the same for the hypothesis-free literal codec (`lzma2Codec_sound_literal`) with match-distance bound 4 KiB, which
+    every accepted LZMA2 dictionary size covers: nothing is assumed about the compressor -/
+theorem finished_stream_xz_literal_partial (f : Flush.Filter) (hid : f.id = ID_LZMA2) (hm : f.memOk = true) (check : Nat)
+    (hsup : checkIsSupported check = true)
+    (hacc : (StreamEnc.init ((xzEnv 4096 literalParser).codec 0) [f] check).2 = .ok)
+    (ops : List Op) (hops : ∀ op ∈ ops, SingleOp 4096 op) (data : Bytes)
+    (hrun : (Enc.execAll (xzEnv 4096 literalParser) (Enc.streamInit (xzEnv 4096 literalParser) [f] check) ops).1.finished = false)
+    (hlive : (Enc.execAll (xzEnv 4096 literalParser) (Enc.streamInit (xzEnv 4096 literalParser) [f] check)
+      (ops ++ [.code .finish data])).1.dead = false) :
+    let r := Enc.execAll (xzEnv 4096 literalParser) (Enc.streamInit (xzEnv 4096 literalParser) [f] check) (ops ++ [.code .finish data])
+    ∃ s, r.1.core = .stream s ∧ doneData s.done = r.2.input ∧
+      ∀ acc, indexAppendAll (s.records.map recOf) {} = .ok acc → ∀ (fl : Flags) (cap : Nat), r.2.input.length ≤ cap →
+        xzDecode XzEnv.stdEnv fl (render (stdFmt check) r.2.segs) cap
+          = { ret := .streamEnd, out := r.2.input, consumed := (render (stdFmt check) r.2.segs).length,
+              events := headerEvents XzEnv.stdEnv fl check } ∧
+        DValidXz XzEnv.stdEnv fl (render (stdFmt check) r.2.segs) cap r.2.input (render (stdFmt check) r.2.segs).length :=
+  finished_stream_xz 4096 (by decide) literalParser (lzma2Codec_sound_literal 4096 (by decide)).1 (xzEnv_std 4096 literalParser)
+    [f] check hsup ⟨f, rfl, hid, hm, (memOk_dict f hid hm).2.1⟩ hacc ops hops data hrun hlive
 
 /-! ## Non-vacuity: a concrete compressor that satisfies the contract, and concrete histories -/
 
@@ -724,8 +835,13 @@ example (F : Fmt) := full_flush_ends_block toyEnv (fun _ => toyCodec_sound) F lz
 
 /-- the hypothesis-free theorems apply: SYNC_FLUSH (and FINISH) of three bytes as the first call on the C01 literal codec;
     the executable decoder model returns exactly these bytes -/
-example := literal_flush_real_decoder_partial 65536 (by decide) lzma2Chain ⟨⟨_, rfl, by decide, by decide⟩, by decide⟩
-  [] [1, 2, 3] (by intro op h; cases h) rfl 100
+example := literal_flush_real_decoder 65536 (by decide) lzma2Chain ⟨⟨_, rfl, by decide, by decide⟩, by decide⟩
+  [] [1, 2, 3] rfl 100
+
+/-- ... and after a history with a change of lc/lp/pb in the middle -/
+example := literal_flush_real_decoder 65536 (by decide) lzma2Chain ⟨⟨_, rfl, by decide, by decide⟩, by decide⟩
+  [.code .syncFlush [1, 2], .update [{ id := ID_LZMA2, props := ⟨0, 2, 1⟩, dict := 65536 }], .code .run [3]] [4]
+  (Enc.execAll_finished _ _ _ rfl (by decide)) 100
 
 example := (lzma2Codec_sound_literal 65536 (by decide)).2.1 deltaLzma2 ⟨⟨_, rfl, by decide, by decide⟩, by decide⟩
   [] [7, 7, 7] rfl
